@@ -24,45 +24,99 @@ pub fn saved_inputs(target: &str) -> Vec<PathBuf> {
     v
 }
 
-/// `cargo +nightly fuzz run` on a fresh copy of the seed corpus. Fixed work: `runs` executions.
+/// Fixed work: `jobs` libFuzzer processes side by side, each `runs` executions on its own fresh copy of the seed
+/// corpus with its own seed. `cargo fuzz run` holds the build-directory lock while the target runs, so the target is
+/// built and located with one `-runs=0` pass through cargo and the jobs then execute that binary directly.
 pub fn run(target: &str, runs: u64, seed: u64, max_len: u32, dict: Option<&str>) -> Campaign {
+    run_jobs(target, runs, 6, seed, max_len, dict)
+}
+
+pub fn run_jobs(target: &str, runs: u64, jobs: u32, seed: u64, max_len: u32, dict: Option<&str>) -> Campaign {
     let work = format!("/verif/fuzz/corpus-work/{target}");
     let _ = std::fs::remove_dir_all(&work);
-    std::fs::create_dir_all(&work).ok();
-    for f in list(Path::new(&format!("/verif/corpus/{target}"))) {
-        if let Some(n) = f.file_name() {
-            let _ = std::fs::copy(&f, Path::new(&work).join(n));
-        }
-    }
     let art_dir = format!("/verif/fuzz/artifacts/{target}");
     std::fs::create_dir_all(&art_dir).ok();
     let before: std::collections::BTreeSet<PathBuf> = list(Path::new(&art_dir)).into_iter().collect();
+    let copy_corpus = |to: &str| {
+        std::fs::create_dir_all(to).ok();
+        for f in list(Path::new(&format!("/verif/corpus/{target}"))) {
+            if let Some(n) = f.file_name() {
+                let _ = std::fs::copy(&f, Path::new(to).join(n));
+            }
+        }
+    };
+    let flags = |dir: &str, runs: u64, seed: u64| -> Vec<String> {
+        let mut v = vec![
+            dir.to_string(),
+            format!("-runs={runs}"),
+            format!("-seed={}", if seed == 0 { 1 } else { seed % 4_000_000_000 }),
+            format!("-max_len={max_len}"),
+            "-len_control=0".to_string(),
+            "-print_final_stats=1".to_string(),
+            format!("-artifact_prefix={art_dir}/"),
+        ];
+        if let Some(d) = dict {
+            v.push(format!("-dict={d}"));
+        }
+        v
+    };
+    // build + locate the binary (seed corpus loaded once through the target)
+    let probe_dir = format!("{work}/probe");
+    copy_corpus(&probe_dir);
     let mut cmd = Command::new("cargo");
+    let mut fl = flags(&probe_dir, 0, 1);
+    let dir0 = fl.remove(0);
     cmd.current_dir("/verif/harness")
         .env("CARGO_NET_OFFLINE", "true")
         .env_remove("RUSTFLAGS")
-        .args(["+nightly", "fuzz", "run", "--fuzz-dir", "/verif/fuzz", target, &work, "--"])
-        .arg(format!("-runs={runs}"))
-        .arg(format!("-seed={}", if seed == 0 { 1 } else { seed % 4_000_000_000 }))
-        .arg(format!("-max_len={max_len}"))
-        .arg("-len_control=0")
-        .arg("-print_final_stats=1")
-        .arg(format!("-artifact_prefix={art_dir}/"));
-    if let Some(d) = dict {
-        cmd.arg(format!("-dict={d}"));
-    }
-    let out = cmd.output();
-    let (text, ok) = match out {
+        .env_remove("CARGO_TARGET_DIR")
+        .args(["+nightly", "fuzz", "run", "--fuzz-dir", "/verif/fuzz", target, &dir0, "--"])
+        .args(&fl);
+    let (probe_text, probe_ok) = match cmd.output() {
         Ok(o) => (format!("{}{}", String::from_utf8_lossy(&o.stdout), String::from_utf8_lossy(&o.stderr)), o.status.success()),
         Err(e) => (format!("could not start cargo fuzz: {e}"), false),
     };
-    let executed = text
-        .lines()
-        .filter_map(|l| l.trim().strip_prefix("stat::number_of_executed_units:"))
-        .filter_map(|v| v.trim().parse::<u64>().ok())
-        .last()
-        .unwrap_or(0);
+    let tail_of = |text: &str| text.lines().rev().take(25).collect::<Vec<_>>().into_iter().rev().collect::<Vec<_>>().join("\n");
+    let units_of = |text: &str| text.lines().filter_map(|l| l.trim().strip_prefix("stat::number_of_executed_units:")).filter_map(|v| v.trim().parse::<u64>().ok()).last().unwrap_or(0);
+    let binary = probe_text.lines().filter_map(|l| l.trim_start().strip_prefix("Running `")).filter_map(|p| p.split_whitespace().next().map(|x| x.trim_end_matches('`').to_string())).last();
+    let mut executed = units_of(&probe_text);
+    let Some(binary) = binary.filter(|_| probe_ok) else {
+        let new_artifacts: Vec<PathBuf> = list(Path::new(&art_dir)).into_iter().filter(|p| !before.contains(p)).collect();
+        return Campaign { executed_units: executed, new_artifacts, log_tail: tail_of(&probe_text), ok: false };
+    };
+    let mut children = vec![];
+    for j in 0..jobs {
+        let dir = format!("{work}/job{j}");
+        copy_corpus(&dir);
+        let Ok(logf) = std::fs::File::create(format!("{work}/job{j}.log")) else { continue };
+        let mut c = Command::new(&binary);
+        c.args(flags(&dir, runs, seed.wrapping_add(1).wrapping_add(j as u64 * 7919)))
+            .current_dir("/verif/harness")
+            .stdin(std::process::Stdio::null())
+            .stdout(std::process::Stdio::null())
+            .stderr(logf);
+        if let Ok(ch) = c.spawn() {
+            children.push((j, ch));
+        }
+    }
+    let mut ok = !children.is_empty();
+    let mut tail = String::new();
+    for (j, mut ch) in children {
+        let status = ch.wait();
+        let text = std::fs::read(format!("{work}/job{j}.log")).map(|b| String::from_utf8_lossy(&b).to_string()).unwrap_or_default();
+        let mut units = units_of(&text);
+        if units == 0 {
+            // the job died before printing its statistics: the last status line carries the count
+            units = text.lines().rev().find_map(|l| l.strip_prefix('#').and_then(|r| r.split_whitespace().next()).and_then(|x| x.parse().ok())).unwrap_or(0);
+        }
+        executed += units;
+        if !status.map(|s| s.success()).unwrap_or(false) {
+            ok = false;
+            tail = tail_of(&text);
+        } else if tail.is_empty() {
+            tail = tail_of(&text);
+        }
+    }
     let new_artifacts: Vec<PathBuf> = list(Path::new(&art_dir)).into_iter().filter(|p| !before.contains(p)).collect();
-    let tail: String = text.lines().rev().take(25).collect::<Vec<_>>().into_iter().rev().collect::<Vec<_>>().join("\n");
     Campaign { executed_units: executed, new_artifacts, log_tail: tail, ok }
 }
